@@ -38,6 +38,12 @@ CLAIMED = {
  'C12': dict(design='4/C12', technique='constructive TLA+ definitions of the collection built-ins (JaqSem NativeColl, JaqLib) evaluated by TLC over enumerated inputs x operations; vectors replayed on the library',
    text='TLC enumerates 25 inputs with duplicates, ties, mixed types, empties and non-string keys x about 100 operations and key filters with 0-2 outputs; the expectation of each case is computed from definitions transcribed from the manual (stable sort, maximal runs, first of run, set-valued ties for min_by/max_by/bsearch) and replayed on the real code; documented equations are part of the operation set.',
    note='regex-based filters excluded; same trusted base as C01'),
+ 'C07': dict(design='4/C07', technique='TLA+ writer function (JaqCodec W/TextOf/NumText/EscT/EscB with layout options) evaluated by TLC over all short strings of a structural alphabet, all number representations and small trees x layout options; TLC vectors replayed on tojson/fromjson and on the CLI writer/reader; independent RFC 8259 text generator with Python json as second reader (exploration)',
+   text='TLC enumerates every text string up to length 2 (quick) / 3 (thorough) over 31 structurally significant characters and bytes, every number representation and nested containers with arbitrary keys; each state carries the text the specified writer produces and the value reading it back must give; replayed on tojson, tojson|fromjson, object keys, byte strings, tostring, and through `jaq <layout options> .` piped to `jaq -c .` at process level for every indentation/compact/tab option. RFC 8259 conformance of the reader is explored with seeded random texts against an independent parser.',
+   note='shortest-round-trip float printing is outside the specification (dyadic floats only); Python json trusted as independent reader; the RFC part is sampling, not TLC-decided'),
+ 'C13': dict(design='4/C13', technique='TLA+ encoders and decoders (JaqCodec Base64/PercentEnc/HtmlEnc/Sh/Csv/Tsv, HtmlDec/PercentDec/Base64Dec) evaluated by TLC over all short strings of a metacharacter alphabet and token strings; vectors replayed on the library; in-language invariants for regex positions; real consumers (/bin/sh, Python csv/json/html/urllib/base64) fed with jaq output',
+   text='TLC enumerates every string up to length 2 over 31 metacharacters, multi-byte characters and invalid bytes, token strings that look like encoder output, malformed Base64 and percent escapes, rows of scalars; each state carries the specified encoding and the decoded original; replayed on the real filters alone and inside format strings. Position properties (match offsets, splits reassembly, slices) are checked as in-language invariants on every string x 7 regexes. Real consumers recover the data from @sh/@csv/@json/@html/@uri/@base64 output for all pairs of metacharacters and random longer strings.',
+   note='regular-expression language itself not modelled; no independent TSV reader; consumers are the ones installed here (dash, CPython modules)'),
 }
 
 checks = []
